@@ -115,7 +115,17 @@ def run(ctx):
     ncoq = 1100 if ctx.tier == "quick" else 12000
     idx = list(range(min(len(coq_cases), 10 + 258))) + sorted(ctx.rng.sample(range(268, len(coq_cases)), ncoq - 268))
     coq_sel = [coq_cases[i] for i in idx]
-    bad, err = ctx.coq_bad_cases("hash", "Machine Harness Hashes HashSpec", chk, coq_sel, shard=70)
+    terr = [k for k in (getattr(ctx, "translator_errors", None) or {}) if k.startswith("consts:hashes")]
+    if terr:
+        # the model is written over constants read from the source; when they could not be read it runs on sentinel
+        # values (-1 shift amounts and multipliers: meaningless, and vm_compute on them takes minutes per shard).  The
+        # translator obligation is already recorded as broken; the failing inputs come from the reference comparison above.
+        bad, err = set(), None
+        ctx.broken.append("correspondence hash-kat not evaluated in Coq: the hash constants could not be read from the source "
+                          "(" + ", ".join(sorted(terr)) + ")")
+        coq_sel = []
+    else:
+        bad, err = ctx.coq_bad_cases("hash", "Machine Harness Hashes HashSpec", chk, coq_sel, shard=70, timeout=300)
     bad = {idx[b] for b in bad}
     if err:
         ctx.broken.append("correspondence hash-kat could not be evaluated: " + err)
